@@ -2,6 +2,10 @@ import Hertz.Proofs.Args
 import Hertz.Proofs.ArgsStd
 import Hertz.Proofs.UriRt
 import Hertz.Proofs.CookieRt
+import Hertz.Proofs.HttpDate
+import Hertz.Proofs.CookieExp
+import Hertz.Proofs.ArgsProg
+import Hertz.Proofs.UriOps
 import Hertz.Driver.C17u
 /-!
 # C17 — URI, query-string and cookie codecs round-trip
@@ -29,13 +33,25 @@ theorems for all inputs:
   keeps the bytes literally (`args_outside_std`), which is not a disagreement on accepted input.  `args_parse_fixed_point`:
   `parse(serialise(parse b)) = parse b` for all `b` (the `argsfix` check).
 
-TODO-OPEN (not Lean theorems): `args_agree_std` is now proved against `stdParse`; that `stdParse` is what the real
-`url.ParseQuery`/`url.QueryUnescape` compute rests on the correspondence check (op `argsstd`: the model's output is diffed with
-net/url's on every case, incl. all strings of up to 3 hostile tokens), not on a proof, and the `noValue` flag of hertz's
-entries has no counterpart in `net/url` (only `args_parse_wf` is stated about it).  Cookie `expires` (Go's time formatting
-and parsing, compared on the Go side); URIs with user-info (`username`/`password` are parsed but never written by
-`FullURI`, so they are outside the round trip) and relative parsing with a separate `Host` argument (`parse host uri` with
-`host ≠ []`) are covered by the correspondence check only.
+Since the extension (`Model/{HttpDate,CookieExp,ArgsProg,UriOps}.lean`, `Proofs/{HttpDate,CookieExp,ArgsProg,UriOps}.lean`) the
+following are Lean theorems for all inputs as well (second half of this file):
+* `date_roundtrip`, `date_roundtrip_full`, `date_format_shape`, the day-number / civil-date bijection
+  (`civil_of_days_inverse`, `days_of_civil_inverse`, `civil_of_days_valid`), `date_roundtrip_fails_at` (years outside 0..9999),
+  `date_parse_lenient` / `date_parse_rejects` (what Go's parser accepts beyond the text hertz writes);
+* `cookie_roundtrip` with ALL TEN attributes incl. `expires` (result = canonical form: whole seconds, no expiry next to a
+  positive max-age), `cookie_roundtrip_canonical`, `cookie_canonical_iff`, the loss witnesses `cookie_expire_lost_by_maxage`,
+  `cookie_subsecond_lost`, `cookie_expire_year_fails_at`;
+* `args_program_roundtrip` (any program of `Add/Set/Del/ParseBytes/Reset`), `request_cookie_roundtrip` + `request_cookie_wf_tight`;
+* `uri_program_roundtrip` (any program of `Parse`, setters, user-info setters, `QueryArgs()` mutations, `Update`, `Reset`),
+  `update_never_panics`, `uri_roundtrip_userinfo_partial` / `uri_userinfo_dropped`, and the new known finding
+  `uri_stale_query_fails_at`.
+
+TODO-OPEN (not Lean theorems): that `stdParse` is what the real `url.ParseQuery`/`url.QueryUnescape` compute, and that
+`Model/HttpDate.lean` is what Go's `time.AppendFormat` / `time.Parse` compute on the three layouts hertz uses, rests on the
+correspondence check (ops `argsstd`, `httpdatefmt`, `httpdateparse`, `httpdatert`: diffed with the real packages on every case),
+not on a proof.  The `noValue` flag of hertz's entries has no counterpart in `net/url`.  Relative parsing with a separate `Host`
+argument is covered as the first step of URI programs (`UriOp.parse host uri`) by `uri_program_roundtrip`; what `Parse` makes of
+user-info is stated on witnesses only.  `DisablePathNormalizing` is not modelled here.
 
 Property theorems only; lemmas live in `Hertz/Proofs`.  Every statement is about the models in
 `Hertz/Model`, which the correspondence check (`bin/check C17`) holds to the Go code, and about
@@ -250,5 +266,388 @@ open Hertz.Uri in
 hypotheses (and round-trips). -/
 example : wfCookie exCookie = true ∧ cookieNonEmpty exCookie = true ∧ parseCookie (appendCookie exCookie) = some exCookie :=
   ⟨exCookie_wf.1, exCookie_wf.2, exCookie_roundtrip⟩
+
+
+/-! ### RFC 1123 dates (`bytesconv.AppendHTTPDate` / `ParseHTTPDate`, the `expires` attribute)
+
+`Model/HttpDate.lean` is a model of Go's `time` package on the layouts hertz uses (trusted stdlib; compared with the real
+`time` on every `httpdatefmt` / `httpdateparse` / `httpdatert` case). -/
+
+open Hertz.HttpDate in
+/-- `date_roundtrip`: for every Unix time from the epoch to the last second of year 9999, parsing the text hertz writes gives
+the time back. -/
+theorem date_roundtrip (t : Int) (h0 : 0 ≤ t) (h1 : t < 253402300800) : parseHTTPDate (formatHTTPDate t) = some t :=
+  parseHTTPDate_format t (by unfold minSec; omega) h1
+
+open Hertz.HttpDate in
+/-- The same on the whole range in which the year has four digits - from 0000-01-01T00:00:00Z (`minSec`, 62 167 219 200 s
+before the epoch) to 9999-12-31T23:59:59Z - and with everything the parser returns: no fractional second, a location named
+`GMT` with offset 0. -/
+theorem date_roundtrip_full (t : Int) (h0 : minSec ≤ t) (h1 : t < maxSec) :
+    parseRFC1123 (formatHTTPDate t) = some { sec := t, nsec := 0, zone := [71, 77, 84], zoneOff := 0 } :=
+  parse_format t h0 h1
+
+open Hertz.HttpDate in
+set_option maxRecDepth 100000 in
+/-- The range cannot be extended by one second on either side: the first second of year 10000 is written with five year
+digits (`Sat, 01 Jan 10000 00:00:00 GMT`) and the last second of year -1 with a sign (`Fri, 31 Dec -0001 23:59:59 GMT`);
+Go's parser rejects both. -/
+theorem date_roundtrip_fails_at :
+    formatHTTPDate maxSec = [83, 97, 116, 44, 32, 48, 49, 32, 74, 97, 110, 32, 49, 48, 48, 48, 48, 32, 48, 48, 58, 48, 48,
+      58, 48, 48, 32, 71, 77, 84] ∧
+    ¬ parseHTTPDate (formatHTTPDate maxSec) = some maxSec ∧ ¬ parseHTTPDate (formatHTTPDate (minSec - 1)) = some (minSec - 1) := by
+  decide +kernel
+
+open Hertz.HttpDate in
+set_option maxRecDepth 100000 in
+/-- non-vacuity: the epoch, `CookieExpireDelete` (2009-11-10T23:00:00Z), a leap day and both ends of the range. -/
+example : formatHTTPDate 1257894000 = [84, 117, 101, 44, 32, 49, 48, 32, 78, 111, 118, 32, 50, 48, 48, 57, 32, 50, 51, 58, 48,
+      48, 58, 48, 48, 32, 71, 77, 84] ∧
+    parseHTTPDate (formatHTTPDate 0) = some 0 ∧ parseHTTPDate (formatHTTPDate 1709164800) = some 1709164800 ∧
+    parseHTTPDate (formatHTTPDate minSec) = some minSec ∧ parseHTTPDate (formatHTTPDate (maxSec - 1)) = some (maxSec - 1) := by
+  decide +kernel
+
+open Hertz.HttpDate in
+/-- `format_shape`: the text has 29 bytes `Www, DD Mmm YYYY HH:MM:SS GMT` - separators at fixed positions, names from Go's
+`shortDayNames` / `shortMonthNames`, decimal digits everywhere else. -/
+theorem date_format_shape (t : Int) (h0 : minSec ≤ t) (h1 : t < maxSec) :
+    ∃ wa wb wc d1 d2 ma mb mc y1 y2 y3 y4 h1 h2 m1 m2 s1 s2,
+      formatHTTPDate t = [wa, wb, wc, 44, 32, d1, d2, 32, ma, mb, mc, 32, y1, y2, y3, y4, 32, h1, h2, 58, m1, m2, 58,
+        s1, s2, 32, 71, 77, 84] ∧
+      (wa, wb, wc) ∈ dayTab ∧ (ma, mb, mc) ∈ monthTab ∧
+      (isDig d1 && isDig d2 && isDig y1 && isDig y2 && isDig y3 && isDig y4 && isDig h1 && isDig h2 && isDig m1 &&
+        isDig m2 && isDig s1 && isDig s2) = true :=
+  format_shape t h0 h1
+
+open Hertz.HttpDate in
+theorem date_format_length (t : Int) (h0 : minSec ≤ t) (h1 : t < maxSec) : (formatHTTPDate t).length = 29 :=
+  format_length t h0 h1
+
+open Hertz.HttpDate in
+/-- The day-number / civil-date bijection, first half: every day number (any integer) is the day number of its civil date. -/
+theorem civil_of_days_inverse (z : Int) :
+    daysFromCivil (civilFromDays z).1 (civilFromDays z).2.1 (civilFromDays z).2.2 = z :=
+  days_civil_days z
+
+open Hertz.HttpDate in
+/-- Second half: every date of the proleptic Gregorian calendar (any year, month 1..12, day 1..`daysIn`) is the civil date
+of its day number. -/
+theorem days_of_civil_inverse (y m d : Int) (hm1 : 1 ≤ m) (hm2 : m ≤ 12) (hd1 : 1 ≤ d) (hd2 : d ≤ daysIn m y) :
+    civilFromDays (daysFromCivil y m d) = (y, m, d) :=
+  civil_days_civil y m d hm1 hm2 hd1 hd2
+
+open Hertz.HttpDate in
+/-- and `civilFromDays` only yields dates of the calendar. -/
+theorem civil_of_days_valid (z : Int) :
+    1 ≤ (civilFromDays z).2.1 ∧ (civilFromDays z).2.1 ≤ 12 ∧ 1 ≤ (civilFromDays z).2.2 ∧
+      (civilFromDays z).2.2 ≤ daysIn (civilFromDays z).2.1 (civilFromDays z).1 :=
+  civil_valid z
+
+open Hertz.HttpDate in
+/-- non-vacuity: 2024-02-29 is a date of the calendar, 19 782 days after the epoch. -/
+example : (29 : Int) ≤ daysIn 2 2024 ∧ daysFromCivil 2024 2 29 = 19782 ∧ civilFromDays 19782 = (2024, 2, 29) := by decide
+
+open Hertz.HttpDate in
+set_option maxRecDepth 100000 in
+/-- What Go's parser accepts beyond the text hertz writes (so `parseHTTPDate` is far from injective): the weekday is not
+checked against the date (`Mon, 01 Jan 1970 …` was a Thursday), names in any case, several blanks, a one-digit hour, a
+fractional second, any zone abbreviation - which is NOT applied to the instant (`PST`, `GMT+3` read as UTC); the cookie
+parser additionally takes the dashed form. -/
+theorem date_parse_lenient :
+    -- "Mon, 01 Jan 1970 00:00:00 GMT"
+    parseHTTPDate [77, 111, 110, 44, 32, 48, 49, 32, 74, 97, 110, 32, 49, 57, 55, 48, 32, 48, 48, 58, 48, 48, 58, 48, 48, 32, 71, 77, 84] = some 0 ∧
+    -- "thu,  01 jan 1970 0:00:00.999 PST"
+    parseRFC1123 [116, 104, 117, 44, 32, 32, 48, 49, 32, 106, 97, 110, 32, 49, 57, 55, 48, 32, 48, 58, 48, 48, 58, 48, 48, 46, 57, 57, 57, 32, 80, 83, 84] =
+      some { sec := 0, nsec := 999000000, zone := [80, 83, 84], zoneOff := 0 } ∧
+    -- "Thu, 01 Jan 1970 00:00:00 GMT+3"
+    parseRFC1123 [84, 104, 117, 44, 32, 48, 49, 32, 74, 97, 110, 32, 49, 57, 55, 48, 32, 48, 48, 58, 48, 48, 58, 48, 48, 32, 71, 77, 84, 43, 51] =
+      some { sec := 0, nsec := 0, zone := [71, 77, 84, 43, 51], zoneOff := 10800 } ∧
+    -- "Thu, 01-Jan-1970 00:00:00 GMT": not RFC 1123, accepted by the cookie parser's second attempt
+    parseRFC1123 [84, 104, 117, 44, 32, 48, 49, 45, 74, 97, 110, 45, 49, 57, 55, 48, 32, 48, 48, 58, 48, 48, 58, 48, 48, 32, 71, 77, 84] = none ∧
+    (parseCookieDate [84, 104, 117, 44, 32, 48, 49, 45, 74, 97, 110, 45, 49, 57, 55, 48, 32, 48, 48, 58, 48, 48, 58, 48, 48, 32, 71, 77, 84]).map (·.sec) = some 0 := by
+  decide +kernel
+
+open Hertz.HttpDate in
+set_option maxRecDepth 100000 in
+/-- … and what it rejects: a day that the month does not have (1900 is no leap year), anything after the zone. -/
+theorem date_parse_rejects :
+    -- "Thu, 29 Feb 1900 00:00:00 GMT"
+    parseHTTPDate [84, 104, 117, 44, 32, 50, 57, 32, 70, 101, 98, 32, 49, 57, 48, 48, 32, 48, 48, 58, 48, 48, 58, 48, 48, 32, 71, 77, 84] = none ∧
+    -- "Thu, 29 Feb 2000 00:00:00 GMT" is fine
+    parseHTTPDate [84, 104, 117, 44, 32, 50, 57, 32, 70, 101, 98, 32, 50, 48, 48, 48, 32, 48, 48, 58, 48, 48, 58, 48, 48, 32, 71, 77, 84] = some 951782400 ∧
+    -- "Thu, 01 Jan 1970 00:00:00 GMT "
+    parseHTTPDate [84, 104, 117, 44, 32, 48, 49, 32, 74, 97, 110, 32, 49, 57, 55, 48, 32, 48, 48, 58, 48, 48, 58, 48, 48, 32, 71, 77, 84, 32] = none := by
+  decide +kernel
+
+/-! ### cookie round trip with `expires` (all ten attributes) -/
+
+open Hertz.Uri in
+/-- `cookie_roundtrip`: for every response cookie that satisfies the validity predicate (`wfCookieE`: `wfCookie` on the nine
+fields of `cookie_roundtrip_partial`, and the expiry, IF it is written, has a four-digit year) and is not entirely empty,
+`ParseBytes(AppendBytes(x))` succeeds and returns the canonical form of `x`: key, value, max-age, domain, path, HttpOnly, secure,
+SameSite, Partitioned unchanged; the expiry as the same instant in whole seconds - or no expiry when max-age is positive
+(`AppendBytes` then writes `max-age` INSTEAD of `expires`, documented at `SetMaxAge`). -/
+theorem cookie_roundtrip (x : CookieE) (hwf : wfCookieE x = true) (hne : cookieNonEmptyE x = true) :
+    parseCookieE (appendCookieE x) = some (canonE x) :=
+  parseCookieE_appendCookieE' x hwf hne
+
+open Hertz.Uri in
+/-- The statement of the property at full strength on canonical cookies: expiry in whole seconds, none next to a positive
+max-age.  (`SetExpire` takes a `time.Time`; only its instant is modelled - the location cannot come back.) -/
+theorem cookie_roundtrip_canonical (x : CookieE) (hwf : wfCookieE x = true) (hne : cookieNonEmptyE x = true)
+    (hns : x.expire.nsec = 0) (hma : x.c.maxAge > 0 → x.expire = zeroInstant) :
+    parseCookieE (appendCookieE x) = some x := by
+  rw [parseCookieE_appendCookieE' x hwf hne, (canonE_eq_iff x).mpr ⟨hns, hma⟩]
+
+open Hertz.Uri in
+/-- exactly these two conditions make a cookie canonical -/
+theorem cookie_canonical_iff (x : CookieE) :
+    canonE x = x ↔ x.expire.nsec = 0 ∧ (x.c.maxAge > 0 → x.expire = zeroInstant) :=
+  canonE_eq_iff x
+
+open Hertz.Uri in
+theorem cookie_nonEmptyE_iff (x : CookieE) : appendCookieE x = [] ↔ cookieNonEmptyE x = false :=
+  appendCookieE_eq_nil_iff x
+
+open Hertz.Uri in
+/-- Without an expiry the serialiser with `expires` is the one the nine-field theorems are about. -/
+theorem cookie_noExpire_agrees (c : Cookie) : appendCookieE { c := c } = appendCookie c := appendCookieE_noExpire c
+
+open Hertz.Uri in
+/-- `a=b` with max-age 5 and expiry `CookieExpireDelete`: valid, and the expiry does not come back (by design). -/
+def exLostByMaxAge : CookieE := { c := { key := [97], value := [98], maxAge := 5 }, expire := ⟨1257894000, 0⟩ }
+
+open Hertz.Uri in
+/-- What is lost, by witness (1): an expiry next to a positive max-age is not written. -/
+theorem cookie_expire_lost_by_maxage :
+    wfCookieE exLostByMaxAge = true ∧
+    parseCookieE (appendCookieE exLostByMaxAge) = some { exLostByMaxAge with expire := zeroInstant } ∧
+    exLostByMaxAge.expire ≠ zeroInstant :=
+  ⟨by decide, parseCookieE_appendCookieE' exLostByMaxAge (by decide) (by decide), by decide⟩
+
+open Hertz.Uri in
+set_option maxRecDepth 100000 in
+/-- (2): the sub-second part.  `a=b` expiring at 2009-11-10T23:00:00.5Z comes back expiring at 23:00:00; and an expiry half
+a second after the zero `Time` is written (`expires=Mon, 01 Jan 0001 00:00:00 GMT`) but comes back as "no expiry". -/
+theorem cookie_subsecond_lost :
+    parseCookieE (appendCookieE { c := { key := [97], value := [98] }, expire := ⟨1257894000, 500000000⟩ }) =
+      some { c := { key := [97], value := [98] }, expire := ⟨1257894000, 0⟩ } ∧
+    (appendCookieE { c := { key := [97], value := [98] }, expire := ⟨-62135596800, 500000000⟩ }).length = 42 ∧
+    parseCookieE (appendCookieE { c := { key := [97], value := [98] }, expire := ⟨-62135596800, 500000000⟩ }) =
+      some { c := { key := [97], value := [98] } } := by
+  decide +kernel
+
+open Hertz.Uri in
+set_option maxRecDepth 100000 in
+/-- The hypothesis on the year cannot be dropped: `a=b` expiring in the first second of year 10000 satisfies everything
+else, is written as `a=b; expires=Sat, 01 Jan 10000 00:00:00 GMT`, and `ParseBytes` returns an ERROR on that text. -/
+theorem cookie_expire_year_fails_at :
+    wfCookie ({ c := { key := [97], value := [98] }, expire := ⟨253402300800, 0⟩ } : CookieE).c = true ∧
+    parseCookieE (appendCookieE { c := { key := [97], value := [98] }, expire := ⟨253402300800, 0⟩ }) = none := by
+  decide +kernel
+
+open Hertz.Uri in
+set_option maxRecDepth 100000 in
+/-- non-vacuity: `id=a=b; expires=Tue, 10 Nov 2009 23:00:00 GMT; domain=x.io; path=/; HttpOnly; secure; SameSite=None;
+Partitioned` meets all hypotheses of `cookie_roundtrip_canonical`. -/
+example :
+    let x : CookieE := { c := { exCookie with maxAge := 0 }, expire := ⟨1257894000, 0⟩ }
+    wfCookieE x = true ∧ cookieNonEmptyE x = true ∧ x.expire.nsec = 0 ∧ (x.c.maxAge > 0 → x.expire = zeroInstant) ∧
+    parseCookieE (appendCookieE x) = some x := by
+  decide +kernel
+
+
+/-! ### setter side of `Args`: programs of `Add / Set / Del / ParseBytes / Reset` -/
+
+/-- `args_program_roundtrip`: after ANY program of `Add`, `Set`, `Del`, `ParseBytes`, `Reset` calls with arbitrary bytes on one
+`Args` object, `ParseBytes(QueryString())` returns exactly the entries `VisitAll` reports, in order, with their no-value flags -
+entries with both key and value empty excepted.  (hertz has no `SetNoValue/AddNoValue`: a value-less entry can only come from
+`ParseBytes`.) -/
+theorem args_program_roundtrip (ops : List ArgOp) :
+    parseArgs (appendArgs (runArgOps ops)) = (runArgOps ops).filter (fun kv => !kv.bothEmpty) :=
+  runArgOps_roundtrip ops
+
+/-- why: every reachable `Args` value keeps "an entry flagged no-value has an empty value" (the hypothesis of `args_roundtrip`) -/
+theorem args_program_invariant (ops : List ArgOp) : ∀ kv ∈ runArgOps ops, kv.noValue = true → kv.value = [] :=
+  runArgOps_inv ops
+
+/-- and the accessor `Peek(k)` gives the same answer before and after the round trip, for every non-empty key -/
+theorem args_program_peek (ops : List ArgOp) (k : Bytes) (hk : k ≠ []) :
+    peekArg (parseArgs (appendArgs (runArgOps ops))) k = peekArg (runArgOps ops) k :=
+  peek_roundtrip ops k hk
+
+set_option maxRecDepth 100000 in
+/-- non-vacuity: `ParseBytes("k&a=1&a=2")`, `Set("a","x y")`, `Add("","")`, `Del("k")`, `Add("z&","=")` leaves `a=x y, a=2, (empty), z&==`;
+the wire form is `a=x+y&a=2&=&z%26=%3D` and the empty entry is the one that does not come back. -/
+example :
+    let ops := [ArgOp.parse [107, 38, 97, 61, 49, 38, 97, 61, 50], .set [97] [120, 32, 121], .add [] [], .del [107], .add [122, 38] [61]]
+    runArgOps ops = [⟨[97], [120, 32, 121], false⟩, ⟨[97], [50], false⟩, ⟨[], [], false⟩, ⟨[122, 38], [61], false⟩] ∧
+    appendArgs (runArgOps ops) = [97, 61, 120, 43, 121, 38, 97, 61, 50, 38, 61, 38, 122, 37, 50, 54, 61, 37, 51, 68] ∧
+    parseArgs (appendArgs (runArgOps ops)) = [⟨[97], [120, 32, 121], false⟩, ⟨[97], [50], false⟩, ⟨[122, 38], [61], false⟩] := by
+  decide +kernel
+
+/-! ### request cookies: `SetCookie` … → `Cookie:` line → `parseRequestCookies` -/
+
+/-- `request_cookie_roundtrip`: for every list of request cookies whose entries are well-formed (`wfReqCookie`: no `;` in key or
+value, no `=` in the key, key unchanged by trimming blanks, value unchanged by trimming blanks and stripping one pair of double
+quotes, no `=` in the value of a key-less cookie), parsing the value of the `Cookie:` line returns the same list - entries with
+neither key nor value excepted (they are written as nothing and `parseRequestCookies` drops them). -/
+theorem request_cookie_roundtrip (l : List (Bytes × Bytes)) (h : ∀ kv ∈ l, wfReqCookie kv = true) :
+    parseReqCookies (appendReqCookies l) = l.filter (fun kv => !(kv.1.isEmpty && kv.2.isEmpty)) :=
+  parseReqCookies_appendReqCookies l h
+
+/-- in particular for the cookies left by any program of `SetCookie / DelCookie / DelAllCookies / Cookie:` lines -/
+theorem request_cookie_program_roundtrip (ops : List CookieOp) (h : ∀ kv ∈ runCookieOps ops, wfReqCookie kv = true) :
+    parseReqCookies (appendReqCookies (runCookieOps ops)) =
+      (runCookieOps ops).filter (fun kv => !(kv.1.isEmpty && kv.2.isEmpty)) :=
+  parseReqCookies_appendReqCookies _ h
+
+set_option maxRecDepth 100000 in
+/-- The predicate is tight: one witness per clause, each violating only that clause, each changed by the round trip.
+`a;b=1` → two cookies; `a=b=1` → key `a`; ` a=1` → key `a`; `a=1;2` → two cookies; `a= 1` → value `1`; `a="1"` → value `1`
+(quotes stripped); key-less `a=b` → cookie `a` = `b`. -/
+theorem request_cookie_wf_tight :
+    parseReqCookies (appendReqCookies [([97, 59, 98], [49])]) = [([], [97]), ([98], [49])] ∧
+    parseReqCookies (appendReqCookies [([97, 61, 98], [49])]) = [([97], [98, 61, 49])] ∧
+    parseReqCookies (appendReqCookies [([32, 97], [49])]) = [([97], [49])] ∧
+    parseReqCookies (appendReqCookies [([97], [49, 59, 50])]) = [([97], [49]), ([], [50])] ∧
+    parseReqCookies (appendReqCookies [([97], [32, 49])]) = [([97], [49])] ∧
+    parseReqCookies (appendReqCookies [([97], [34, 49, 34])]) = [([97], [49])] ∧
+    parseReqCookies (appendReqCookies [([], [97, 61, 98])]) = [([97], [98])] ∧
+    wfReqCookie ([97, 59, 98], [49]) = false ∧ wfReqCookie ([97, 61, 98], [49]) = false ∧ wfReqCookie ([32, 97], [49]) = false ∧
+    wfReqCookie ([97], [49, 59, 50]) = false ∧ wfReqCookie ([97], [32, 49]) = false ∧ wfReqCookie ([97], [34, 49, 34]) = false ∧
+    wfReqCookie ([], [97, 61, 98]) = false := by
+  decide +kernel
+
+set_option maxRecDepth 100000 in
+/-- non-vacuity: `sid=a=b`, a key-less `x y`, an entirely empty cookie, `k=` and `q="` are all well-formed; the line is
+`sid=a=b; x y; ; k=; q="` and the empty one does not come back. -/
+example :
+    let l : List (Bytes × Bytes) := [([115, 105, 100], [97, 61, 98]), ([], [120, 32, 121]), ([], []), ([107], []), ([113], [34])]
+    (∀ kv ∈ l, wfReqCookie kv = true) ∧ appendReqCookies l = [115, 105, 100, 61, 97, 61, 98, 59, 32, 120, 32, 121, 59, 32, 59, 32, 107, 61, 59, 32, 113, 61, 34] ∧
+    parseReqCookies (appendReqCookies l) = [([115, 105, 100], [97, 61, 98]), ([], [120, 32, 121]), ([107], []), ([113], [34])] := by
+  decide +kernel
+
+/-! ### programs over one `URI`: `Parse`, setters, user-info, `QueryArgs()` mutations, `Update` -/
+
+open Hertz.Uri in
+/-- `Update` never panics (its `BUG: path must contain at least one slash` is unreachable), whatever was done to the URI
+before: every program runs to a state. -/
+theorem update_never_panics (ops : List UriOp) : ∃ st, runUriOps ops = some st :=
+  let ⟨st, h, _⟩ := run_never_panics ops; ⟨st, h⟩
+
+open Hertz.Uri in
+/-- `update_then_parse_fixed_point` / `uri_program_roundtrip`: run ANY program of `Parse`, `SetScheme/SetHost/SetPath/SetHash`,
+`SetQueryString`, `SetUsername/SetPassword`, `QueryArgs().Add/Set/Del/ParseBytes/Reset`, `Update`, `Reset` on one URI object.
+If the final state is well-formed (`wfState`: scheme syntax, host free of `/ ? # @` and control bytes - it may be empty -, no
+control byte in the fragment (F15), and - when no argument list is written - a raw query string free of `#` and control
+bytes), then `Parse(nil, FullURI())` yields the same scheme, host, path and fragment and NO user-info; the arguments
+`QueryArgs()` reports (both-empty excepted) unless the state is a stale-query state (`uri_stale_query_fails_at`); and
+formatting the re-parsed URI gives the same text. -/
+theorem uri_program_roundtrip (ops : List UriOp) (st : UState) (hrun : runUriOps ops = some st) (hwf : wfState st = true) :
+    (UState.ofParse [] st.fullURI).u.schemeOrHTTP = st.u.schemeOrHTTP ∧
+    (UState.ofParse [] st.fullURI).u.host = st.u.host ∧
+    (UState.ofParse [] st.fullURI).u.pathOrSlash = st.u.pathOrSlash ∧
+    (UState.ofParse [] st.fullURI).u.hash = st.u.hash ∧
+    (UState.ofParse [] st.fullURI).u.username = [] ∧ (UState.ofParse [] st.fullURI).u.password = [] ∧
+    (st.staleQuery = false →
+      (UState.ofParse [] st.fullURI).queryView = st.queryView.filter (fun kv => !kv.bothEmpty)) ∧
+    (UState.ofParse [] st.fullURI).fullURI = st.fullURI :=
+  program_roundtrip ops st hrun hwf
+
+open Hertz.Uri in
+/-- the record form, for any record with lower-case scheme and host and a normalised path (every reachable one): the whole
+parsed record, with the quoted path as `PathOriginal` and empty user-info. -/
+theorem uri_state_roundtrip (u : URI) (qa : List ArgKV) (inv : URIInv u) (hwf : wfRecord u = true)
+    (hq35 : ∀ s, queryPart u qa = some s → ∀ x ∈ s, x ≠ 35)
+    (hqctl : ∀ s, queryPart u qa = some s → hasCTL s = false) :
+    parse [] (u.fullURI qa) =
+      { scheme := u.schemeOrHTTP, host := u.host, pathOriginal := quotePath u.pathOrSlash, path := u.pathOrSlash,
+        query := (queryPart u qa).getD [], hash := u.hash } :=
+  state_parse_fullURI u qa inv hwf hq35 hqctl
+
+open Hertz.Uri in
+/-- every state a program can reach has that shape -/
+theorem uri_reachable_invariant (ops : List UriOp) (st : UState) (hrun : runUriOps ops = some st) : URIInv st.u :=
+  (run_inv ops st hrun).uinv
+
+open Hertz.Uri in
+set_option maxRecDepth 100000 in
+/-- GENUINE DEFECT (class `uri-stale-query`): the query `FullURI()` writes is not the query the object reports.
+(1) `Parse("http://h/?a=1")`, `QueryArgs().Add("b","2")`, `SetQueryString("c=3")` (or `Update("?c=3")`): `QueryString()` is
+`c=3`, `QueryArgs()` reports `c=3`, but `FullURI()` is `http://h/?a=1&b=2` - `RequestURI` writes the argument list whenever it
+is non-empty, without looking at `parsedQueryArgs`.  (2) `Parse("http://h/?a=1")`, `QueryArgs().Del("a")`: `QueryArgs()`
+reports nothing, `FullURI()` still has `?a=1` - with an empty list `RequestURI` falls back to the old query string.
+Both states are well-formed, so the hypothesis `staleQuery = false` of `uri_program_roundtrip` cannot be dropped. -/
+theorem uri_stale_query_fails_at :
+    (∃ st, runUriOps [.parse [] [104, 116, 116, 112, 58, 47, 47, 104, 47, 63, 97, 61, 49], .args (.add [98] [50]), .setQueryString [99, 61, 51]] = some st ∧
+      wfState st = true ∧ st.staleQuery = true ∧ st.u.query = [99, 61, 51] ∧ st.queryView = [⟨[99], [51], false⟩] ∧
+      st.fullURI = [104, 116, 116, 112, 58, 47, 47, 104, 47, 63, 97, 61, 49, 38, 98, 61, 50] ∧
+      (UState.ofParse [] st.fullURI).queryView = [⟨[97], [49], false⟩, ⟨[98], [50], false⟩]) ∧
+    (∃ st, runUriOps [.parse [] [104, 116, 116, 112, 58, 47, 47, 104, 47, 63, 97, 61, 49], .args (.add [98] [50]), .update [63, 99, 61, 51]] = some st ∧
+      st.queryView = [⟨[99], [51], false⟩] ∧ st.fullURI = [104, 116, 116, 112, 58, 47, 47, 104, 47, 63, 97, 61, 49, 38, 98, 61, 50]) ∧
+    (∃ st, runUriOps [.parse [] [104, 116, 116, 112, 58, 47, 47, 104, 47, 63, 97, 61, 49], .args (.del [97])] = some st ∧
+      wfState st = true ∧ st.staleQuery = true ∧ st.queryView = [] ∧ st.fullURI = [104, 116, 116, 112, 58, 47, 47, 104, 47, 63, 97, 61, 49] ∧
+      (UState.ofParse [] st.fullURI).queryView = [⟨[97], [49], false⟩]) := by
+  refine ⟨⟨_, rfl, ?_⟩, ⟨_, rfl, ?_⟩, ⟨_, rfl, ?_⟩⟩ <;> decide +kernel
+
+/-! ### user-info -/
+
+open Hertz.Uri in
+/-- `uri_roundtrip_userinfo` (partial - see `uri_userinfo_dropped`): a URI assembled through the setters INCLUDING
+`SetUsername` / `SetPassword` (any bytes) is written by `FullURI()` exactly as without them, so `Parse(nil, FullURI())` gives
+the scheme, host, path, query and fragment of `uri_roundtrip` - user-info can never end up inside host or path - and an EMPTY
+user-info.  The property lists scheme, host, path, query and fragment; user-info is not among them, so dropping it is a
+limitation of `FullURI()` (there is no way to serialise credentials), not a violation of the property. -/
+theorem uri_roundtrip_userinfo_partial (scheme host path hash user pass : Bytes) (qa : List ArgKV)
+    (hwf : wfUri scheme host = true) (hh : hasCTL hash = false) :
+    parse [] (({ mkURI scheme host path hash with username := user, password := pass } : URI).fullURI qa) =
+      { scheme := (mkURI scheme host path hash).schemeOrHTTP, host := host.map toLower,
+        pathOriginal := quotePath (normalizePath path), path := normalizePath path,
+        query := appendArgs qa, hash := hash, username := [], password := [] } := by
+  rw [fullURI_userinfo]
+  exact parse_fullURI scheme host path hash qa hwf hh
+
+open Hertz.Uri in
+set_option maxRecDepth 100000 in
+/-- `uri_roundtrip_userinfo_fails_at`: what `Parse` does with `user:pass@host` and what is lost.  `http://User:Pa:ss@Host/p`
+parses to user `User`, password `Pa:ss` (first `:`), host `host`; `FullURI()` is `http://host/p`; the re-parsed URI has no
+user-info.  The split is at the FIRST `@`: `http://a@b@c/` gives user `a` and host `b@c` - a host outside `wfState`, and
+indeed its `FullURI()` `http://b@c/` re-parses to host `c` (that state is not produced by `SetHost` on a host name, and
+`uri_program_roundtrip` excludes it by `hostChar`). -/
+theorem uri_userinfo_dropped :
+    (parse [] [104, 116, 116, 112, 58, 47, 47, 85, 115, 101, 114, 58, 80, 97, 58, 115, 115, 64, 72, 111, 115, 116, 47, 112]).username = [85, 115, 101, 114] ∧ (parse [] [104, 116, 116, 112, 58, 47, 47, 85, 115, 101, 114, 58, 80, 97, 58, 115, 115, 64, 72, 111, 115, 116, 47, 112]).password = [80, 97, 58, 115, 115] ∧
+    (parse [] [104, 116, 116, 112, 58, 47, 47, 85, 115, 101, 114, 58, 80, 97, 58, 115, 115, 64, 72, 111, 115, 116, 47, 112]).host = [104, 111, 115, 116] ∧
+    (parse [] [104, 116, 116, 112, 58, 47, 47, 85, 115, 101, 114, 58, 80, 97, 58, 115, 115, 64, 72, 111, 115, 116, 47, 112]).fullURI [] = [104, 116, 116, 112, 58, 47, 47, 104, 111, 115, 116, 47, 112] ∧
+    (parse [] ((parse [] [104, 116, 116, 112, 58, 47, 47, 85, 115, 101, 114, 58, 80, 97, 58, 115, 115, 64, 72, 111, 115, 116, 47, 112]).fullURI [])).username = [] ∧
+    (parse [] [104, 116, 116, 112, 58, 47, 47, 97, 64, 98, 64, 99, 47]).username = [97] ∧ (parse [] [104, 116, 116, 112, 58, 47, 47, 97, 64, 98, 64, 99, 47]).host = [98, 64, 99] ∧
+    (parse [] ((parse [] [104, 116, 116, 112, 58, 47, 47, 97, 64, 98, 64, 99, 47]).fullURI [])).host = [99] := by
+  decide +kernel
+
+open Hertz.Uri in
+set_option maxRecDepth 100000 in
+/-- non-vacuity for `uri_program_roundtrip`: `Parse("https://User:Pw@Host.example/a/b?x=1#f")`, `Update("../c?y")`,
+`QueryArgs().Add("k","v w")`, `SetUsername("u")`, `Update("#g")` ends in a well-formed, non-stale state whose text is
+`https://host.example/c?y&k=v+w#g`. -/
+example :
+    ∃ st, runUriOps [.parse [] [104, 116, 116, 112, 115, 58, 47, 47, 85, 115, 101, 114, 58, 80, 119, 64, 72, 111, 115, 116, 46, 101, 120, 97, 109, 112, 108, 101, 47, 97, 47, 98, 63, 120, 61, 49, 35, 102], .update [46, 46, 47, 99, 63, 121], .args (.add [107] [118, 32, 119]),
+        .setUsername [117], .update [35, 103]] = some st ∧
+      wfState st = true ∧ st.staleQuery = false ∧ st.u.username = [117] ∧ st.fullURI = [104, 116, 116, 112, 115, 58, 47, 47, 104, 111, 115, 116, 46, 101, 120, 97, 109, 112, 108, 101, 47, 99, 63, 121, 38, 107, 61, 118, 43, 119, 35, 103] := by
+  refine ⟨_, rfl, ?_⟩
+  decide +kernel
+
+
+open Hertz.Uri in
+set_option maxRecDepth 100000 in
+/-- Behaviour worth knowing (outside the round-trip property - every state below still round-trips): `Update` with a
+network-path reference `//host/path` prefixes the RAW scheme field, which is empty for a URI parsed with a separate `Host`
+argument (every server-side request URI) or built through `SetHost`; the text `://foobar.com/aaa` is then no absolute URI and
+the host is lost: host `""`, path `/:/foobar.com/aaa`.  On a URI parsed from an absolute text the same call works. -/
+theorem uri_update_netpath_needs_scheme :
+    (∃ st, runUriOps [.parse [101, 120, 97, 109, 112, 108, 101, 46, 99, 111, 109] [47, 120], .update [47, 47, 102, 111, 111, 98, 97, 114, 46, 99, 111, 109, 47, 97, 97, 97]] = some st ∧
+      st.u.host = [] ∧ st.u.path = [47, 58, 47, 102, 111, 111, 98, 97, 114, 46, 99, 111, 109, 47, 97, 97, 97]) ∧
+    (∃ st, runUriOps [.parse [] [104, 116, 116, 112, 58, 47, 47, 101, 120, 97, 109, 112, 108, 101, 46, 99, 111, 109, 47, 120], .update [47, 47, 102, 111, 111, 98, 97, 114, 46, 99, 111, 109, 47, 97, 97, 97]] = some st ∧
+      st.u.host = [102, 111, 111, 98, 97, 114, 46, 99, 111, 109] ∧ st.u.path = [47, 97, 97, 97]) := by
+  refine ⟨⟨_, rfl, ?_⟩, ⟨_, rfl, ?_⟩⟩ <;> decide +kernel
 
 end Hertz.Props.C17
